@@ -2,7 +2,7 @@
   Scc.Fun2Core.SemSim6 — simulation of the evaluation of direct producers in statement position
   (`⟦t⟧_c = ⟨compile t | c⟩`).
 -/
-import Scc.Fun2Core.SemSim5
+import Scc.Fun2Core.SemCod4
 
 namespace Scc.Fun2Core.Sem
 open Scc
@@ -19,25 +19,24 @@ def evalDirect : Fun.Term → Bool
   | _ => false
 
 /-- the translation of a direct producer with a consumer is the cut of its translation as a
-producer with the consumer, at a type that is not codata -/
-theorem cwc_direct (hcod : CodOK p q) : ∀ (t : Fun.Term), evalDirect t = true → good p t = true →
+producer with the consumer, at the translation of its annotated type -/
+theorem cwc_direct : ∀ (t : Fun.Term), evalDirect t = true → good p t = true →
     ∀ (c : Core.Term) (st : CompileState)
     (s : Core.Stmt) (st' : CompileState), compileWithCont t c st = .ok (s, st') →
     pureD p (goodClauses p) t = true ∧
-    ∃ P τ cty, compile t τ st = .ok (P, st') ∧ s = .cut cty P c ∧
-      Core.isCodata q.codataTypes cty = false
+    ∃ P τ0 τ, compile t τ0 st = .ok (P, st') ∧ getType t = some τ ∧ s = .cut (compileTy τ) P c
   | .var x vty chi, _, hg, c, st, s, st', h => by
     rw [cwc_var] at h
     simp only [good] at hg
-    obtain ⟨t0, rfl, hnc⟩ := hcod.ncd hg
+    obtain ⟨t0, rfl⟩ := annO_some hg
     simp only [Except.ok.injEq, Prod.mk.injEq] at h
     obtain ⟨rfl, rfl⟩ := h
-    exact ⟨rfl, _, .i64, _, by rw [c_var], rfl, hnc⟩
+    exact ⟨rfl, _, .i64, t0, by rw [c_var], rfl, rfl⟩
   | .lit k, _, _, c, st, s, st', h => by
     rw [cwc_lit] at h
     simp only [Except.ok.injEq, Prod.mk.injEq] at h
     obtain ⟨rfl, rfl⟩ := h
-    exact ⟨rfl, _, .i64, _, by rw [c_lit], rfl, rfl⟩
+    exact ⟨rfl, _, .i64, .i64, by rw [c_lit], rfl, rfl⟩
   | .op a o b, _, hg, c, st, s, st', h => by
     rw [cwc_op] at h
     simp only [good, Bool.and_eq_true] at hg
@@ -47,11 +46,11 @@ theorem cwc_direct (hcod : CodOK p q) : ∀ (t : Fun.Term), evalDirect t = true 
       obtain ⟨P, st1⟩ := r
       simp only [hc, Except.ok.injEq, Prod.mk.injEq] at h
       obtain ⟨rfl, rfl⟩ := h
-      exact ⟨by simp [pureD, goodP_pureFO p a hg.1, goodP_pureFO p b hg.2], P, .i64, _, hc, rfl, rfl⟩
+      exact ⟨by simp [pureD, goodP_pureFO p a hg.1, goodP_pureFO p b hg.2], P, .i64, .i64, hc, rfl, rfl⟩
   | .ctor K as cty0, _, hg, c, st, s, st', h => by
     rw [cwc_ctor] at h
     simp only [good, Bool.and_eq_true] at hg
-    obtain ⟨t0, rfl, hnc⟩ := hcod.ncd hg.2
+    obtain ⟨t0, rfl⟩ := annO_some hg.2
     simp only at h
     cases hc : compile (.ctor K as (some t0)) (compileTy t0) st with
     | error e => simp [hc] at h
@@ -59,12 +58,12 @@ theorem cwc_direct (hcod : CodOK p q) : ∀ (t : Fun.Term), evalDirect t = true 
       obtain ⟨P, st1⟩ := r
       simp only [hc, Except.ok.injEq, Prod.mk.injEq] at h
       obtain ⟨rfl, rfl⟩ := h
-      exact ⟨by simp [pureD, goodPs_pureFOs p as hg.1], P, _, _, hc, rfl, hnc⟩
+      exact ⟨by simp [pureD, goodPs_pureFOs p as hg.1], P, _, t0, hc, rfl, rfl⟩
   | .paren t, hd, hg, c, st, s, st', h => by
     rw [cwc_paren] at h
-    obtain ⟨h0, P, τ, cty, h1, h2, h3⟩ :=
-      cwc_direct hcod t (by simpa [evalDirect] using hd) (by simpa [good] using hg) c st s st' h
-    exact ⟨by simpa [pureD] using h0, P, τ, cty, by rw [c_paren]; exact h1, h2, h3⟩
+    obtain ⟨h0, P, τ0, τ, h1, h2, h3⟩ :=
+      cwc_direct t (by simpa [evalDirect] using hd) (by simpa [good] using hg) c st s st' h
+    exact ⟨by simpa [pureD] using h0, P, τ0, τ, by rw [c_paren]; exact h1, by simpa [getType] using h2, h3⟩
   | .ifc .., h, _, _, _, _, _, _ => by simp [evalDirect] at h
   | .ifz .., h, _, _, _, _, _, _ => by simp [evalDirect] at h
   | .print .., h, _, _, _, _, _, _ => by simp [evalDirect] at h
@@ -78,29 +77,47 @@ theorem cwc_direct (hcod : CodOK p q) : ∀ (t : Fun.Term), evalDirect t = true 
   | .exit .., h, _, _, _, _, _, _ => by simp [evalDirect] at h
 
 theorem CRel.inert {n : Nat} {k : Fun.Stack} {c : Core.Term} {ρ : CEnv}
-    (h : CRel (GP p) q n k c ρ) : Inert c := by
+    (h : CRel (GP p) p q n k c ρ) (hkk : kkind k = false) : Inert c := by
   cases h with
   | mk _ _ hi _ _ => exact hi
+  | mkD _ _ hi _ _ => exact hi
+  | dtor _ _ _ _ _ _ _ _ _ _ _ _ => cases hkk
+
+theorem CRel.consOK {n : Nat} {k : Fun.Stack} {c : Core.Term} {ρ : CEnv}
+    (h : CRel (GP p) p q n k c ρ) : ∀ v ty s, c ≠ .mu .prd v ty s := by
+  cases h with
+  | mk _ _ hi _ _ => exact fun v ty s e => by subst e; exact hi
+  | mkD _ _ hi _ _ => exact fun v ty s e => by subst e; exact hi
+  | dtor _ _ _ _ _ _ _ _ _ _ _ _ => exact fun v ty s e => by cases e
 
 theorem CRel.bound {n : Nat} {k : Fun.Stack} {c : Core.Term} {ρ : CEnv}
-    (h : CRel (GP p) q n k c ρ) : BoundOn (tfvTerm c []) ρ := by
+    (h : CRel (GP p) p q n k c ρ) : BoundOn (tfvTerm c []) ρ := by
   cases h with
   | mk _ _ _ hb _ => exact hb
+  | mkD _ _ _ hb _ => exact hb
+  | dtor _ _ _ _ _ _ _ _ _ bd a _ => exact bd.agree a
 
 theorem CRel.tyOK {n : Nat} {k : Fun.Stack} {c : Core.Term} {ρ : CEnv}
-    (h : CRel (GP p) q n k c ρ) : Core.isCodata q.codataTypes (coreGetType c) = false := by
-  cases h with
-  | mk _ _ _ _ ht => exact ht
+    (h : CRel (GP p) p q n k c ρ) (hkk : kkind k = false) :
+    Core.isCodata q.codataTypes (coreGetType c) = false := by
+  rw [← h.kk]; exact hkk
 
 /-- a direct producer in statement position -/
 theorem eval_direct (X : Ctx p q) {t : Fun.Term} (hd : evalDirect t = true) (hg : good p t = true)
     {env : Fun.Env}
     {k : Fun.Stack} {c : Core.Term} {s : Core.Stmt} {ρ0 ρ : CEnv} {out : Out} {n : Nat}
-    (hc : Compiled q n t c s) (he : EnvRel (GP p) q n (fv t) env ρ0) (hr : CRel (GP p) q n k c ρ0)
-    (hbd : BoundOn (tfvStmt s []) ρ0) (hag : AgreeOn (tfvStmt s []) ρ0 ρ) :
+    (hc : Compiled q n t c s) (he : EnvRel (GP p) p q n (fv t) env ρ0) (hr : CRel (GP p) p q n k c ρ0)
+    (hbd : BoundOn (tfvStmt s []) ρ0) (hag : AgreeOn (tfvStmt s []) ρ0 ρ)
+    (hT : STM p (.eval t env k)) (hkk : kkind k = false) :
     Chunk p q (R p q) true true μ (.eval t env k) ⟨s, ρ, out, n⟩ := by
   obtain ⟨st, st', hcwc, hst, htn, hcn⟩ := hc
-  obtain ⟨hpd, P, τ, cty, hcP, rfl, hnc⟩ := cwc_direct X.cod t hd hg c st s st' hcwc
+  obtain ⟨hpd, P, τ, τ1, hcP, hgt, rfl⟩ := cwc_direct t hd hg c st s st' hcwc
+  have hnc : Core.isCodata q.codataTypes (compileTy τ1) = false := by
+    obtain ⟨τ2, h1, h2⟩ := X.kind hT
+    rw [hgt] at h1; cases h1
+    rw [h2, hkk]
+  have hck := hr.tyOK hkk
+  generalize compileTy τ1 = cty at hnc hbd hag
   have hagP : AgreeOn (tfvTerm P []) ρ0 ρ := hag.mono fun y hy => mem_tfv_cut.2 (.inl hy)
   have hbdP : BoundOn (tfvTerm P []) ρ0 := hbd.mono fun y hy => mem_tfv_cut.2 (.inl hy)
   have hagc : AgreeOn (tfvTerm c []) ρ0 ρ := hag.mono fun y hy => mem_tfv_cut.2 (.inr hy)
@@ -113,18 +130,18 @@ theorem eval_direct (X : Ctx p q) {t : Fun.Term} (hd : evalDirect t = true) (hg 
       | var pc z ty =>
         obtain ⟨_, _, V, hl, hvr⟩ := hv.var pc z ty rfl
         exact Chunk.prefix fj (.refl _) rfl (fun _ => hj) (fun h => .inr h)
-          (pass_chunk X hnc (A := .var pc z ty) rfl (by simpa [Core.prdVal] using hl) hvr hr hagc).weaken
+          (pass_chunk X hnc (A := .var pc z ty) rfl (by simpa [Core.prdVal] using hl) hvr hr hck hagc).weaken
       | _ => simp [Core.Term.isVar] at hP
     | false =>
       obtain ⟨i, ρ', n', P', V, hcs, hn', hext, hfoc, hval, hvr⟩ :=
-        (hv.nonvar hP).1 c cty out hr.inert
+        (hv.nonvar hP).1 c cty out (hr.inert hkk)
       obtain ⟨ρ0', hext0, hag'⟩ := hext.agree (ρ0 := ρ0)
       exact Chunk.prefix fj hcs rfl (fun _ => hj) (fun h => .inr h)
         (pass_chunk X hnc hfoc hval (hvr.mono hn')
-          ((hr.mono hn').sigExt hext0 (hcn.sig_lt (Nat.le_refl n))) (hag' _ hagc)).weaken
+          ((hr.mono hn').sigExt hext0 (hcn.sig_lt (Nat.le_refl n))) hck (hag' _ hagc)).weaken
   · exact .inl ⟨j, s1, .stuck w, fj, by rw [h1]; rfl, fun hf => absurd hf (bad_not_finished h2)⟩
   · refine .inl ⟨j, s1, .stuck w, fj, by rw [h1]; rfl, fun _ => ?_⟩
-    obtain ⟨i, S1, hcs, ho, hs⟩ := h4 c cty out hr.inert hnc
+    obtain ⟨i, S1, hcs, ho, hs⟩ := h4 c cty out (hr.inert hkk) hnc
     exact ⟨i, S1, r', hcs, ho, hs, h2⟩
 
 end Scc.Fun2Core.Sem
